@@ -209,6 +209,10 @@ func trimStack(s string) string {
 	return strings.Join(lines, "\n")
 }
 
+// InlineGo makes Go run its function synchronously when no execution is active
+// (sequential enumeration harnesses that must observe the goroutine's effects).
+var InlineGo bool
+
 // Go starts f as a new controlled thread (or a plain goroutine outside an
 // execution). The spawn is a scheduling point for the parent.
 func Go(f func()) { GoNamed("", f) }
@@ -217,6 +221,10 @@ func Go(f func()) { GoNamed("", f) }
 func GoNamed(name string, f func()) {
 	x := cur
 	if x == nil {
+		if InlineGo {
+			f()
+			return
+		}
 		go f()
 		return
 	}
